@@ -29,7 +29,7 @@ use serde_json::json;
 use std::collections::{BTreeMap, BTreeSet};
 use std::path::Path;
 
-pub const PROGS: &[&str] = &["c19_scopes-1.89", "c19_scopes_o1-1.89"];
+pub const PROGS: &[&str] = &["c19_scopes-1.89", "c19_scopes_o1-1.89", "c19_gen1-1.89", "c19_gen1_o1-1.89", "c19_gen2-1.89", "c19_gen2_o1-1.89"];
 const ID: &str = "C19";
 
 fn crate_of(prog: &str) -> &str { prog.split('-').next().unwrap() }
@@ -227,7 +227,8 @@ fn program_lines(dies: &[DieRec]) -> Vec<String> {
 pub struct Binding { pub name: String, pub line: u64, pub end: u64, pub lit: Option<u64>, pub plus_n: bool, pub func: usize }
 #[derive(Clone, Debug)]
 pub struct SrcFn { pub name: String, pub first: u64, pub last: u64, pub params: Vec<String>, pub closure_of: Option<usize> }
-pub struct Src { pub fns: Vec<SrcFn>, pub binds: Vec<Binding> }
+pub struct Src { pub fns: Vec<SrcFn>, pub binds: Vec<Binding>, /// literal arguments of the calls written in `main`: callee -> arguments (None = not a literal)
+    pub main_calls: BTreeMap<String, Vec<Option<u64>>> }
 
 pub fn parse_source(text: &str) -> Src {
     let mut fns: Vec<SrcFn> = vec![];
@@ -280,7 +281,19 @@ pub fn parse_source(text: &str) -> Src {
             }
         }
     }
-    Src { fns, binds }
+    // calls in `main`: `let r: u64 = NAME(ARG, ARG);`
+    let mut main_calls: BTreeMap<String, Vec<Option<u64>>> = BTreeMap::new();
+    if let Some(m) = fns.iter().find(|f| f.name == "main") {
+        for (i, raw) in text.lines().enumerate() {
+            let ln = i as u64 + 1;
+            if ln <= m.first || ln >= m.last { continue; }
+            if let Some((_, rhs)) = raw.split_once("= ") && let Some((callee, rest)) = rhs.split_once('(') && let Some(args) = rest.strip_suffix(");")
+                && callee.chars().all(|ch| ch.is_alphanumeric() || ch == '_') {
+                main_calls.insert(callee.to_string(), args.split(',').map(|a| a.trim().parse::<u64>().ok()).collect());
+            }
+        }
+    }
+    Src { fns, binds, main_calls }
 }
 
 impl Src {
@@ -347,8 +360,10 @@ pub fn gen_requests(rng: &mut Rng, n: u64, out: &mut Out) -> Vec<String> {
     for n in 0..200u64 { req.push(format!("{ID} dw2reg {n:x}")); req.push(format!("{ID} dwmap {n:x}")); }
     for n in [0xffffu64, 0x7fff, 0x8000, 0x100] { req.push(format!("{ID} dw2reg {n:x}")); req.push(format!("{ID} dwmap {n:x}")); }
     out.count("tables.lines", req.len() as u64 - 1);
+    // which programs a run visits rotates with the seed; opt-level 0 and 1 alternate
+    let prog_off = 2 * rng.below(PROGS.len() as u64 / 2);
     for s in 0..n {
-        let name = PROGS[(s % PROGS.len() as u64) as usize];
+        let name = PROGS[((s + prog_off) % PROGS.len() as u64) as usize];
         let Some(c) = load_ctx(name) else { out.count("skipped.no-dwarfdump", 1); continue };
         let ur = user_ranges(&c.dies);
         let pcs: Vec<u64> = { let s: BTreeSet<u64> = c.p.trace.iter().map(|s| s.pc).filter(|pc| in_user(&ur, *pc)).collect(); s.into_iter().collect() };
@@ -716,13 +731,19 @@ pub fn session(lines: &[String], c: Option<&Ctx>, emit: &mut dyn FnMut(String)) 
                     let past_prologue = me.and_then(|off| die_by_off.get(&off)).and_then(|f| c.rows.iter().filter(|r| r.prologue_end && in_user(&f.ranges, r.addr)).map(|r| r.addr).min()).is_some_and(|pe| loc_pc >= pe);
                     if !c.opt && let (Some(ln), Some(x), true) = (ln, num, past_prologue) && let Some(fi) = c.src.fn_at(ln) {
                         let f = &c.src.fns[fi];
-                        let n_arg = |fname: &str| -> Option<u64> { match fname { "rec" | "multi" => Some(3 - outer_same.min(3)), _ => None } };
+                        // per-activation argument values, from the calls written in `main` and the recursion scheme of the
+                        // debuggees (`rec*(n, tag)` calls itself with (n - 1, tag + 1); `multi(n, w)` with n - 1)
+                        let lit_arg = |fname: &str, i: usize| c.src.main_calls.get(fname).and_then(|a| a.get(i).copied().flatten());
+                        let recursive = |fname: &str| fname.starts_with("rec") || fname == "multi";
+                        let n_arg = |fname: &str| -> Option<u64> { if recursive(fname) { lit_arg(fname, 0).map(|k| k - outer_same.min(k)) } else { None } };
+                        // is the caller of this frame `main` (so that the literals written there are this activation's arguments)?
+                        let called_from_main = s.frames.get(cur_k + 1).and_then(|(pc, _)| line_of(*pc - 1)).and_then(|l| c.src.fn_at(l)).is_some_and(|i| c.src.fns[i].name == "main");
                         if on_args {
-                            let want: Option<u64> = match (f.name.as_str(), n.as_str()) {
-                                ("rec", "n") | ("multi", "n") => n_arg(&f.name),
-                                ("rec", "tag") => Some(40 + outer_same),
-                                ("blocks", "p") => Some(190001), ("blocks", "q") => Some(5), ("looper", "lim") => Some(3),
-                                ("closures", "seed") => Some(11), ("tail_call_in_block", "t") | ("call_last_in_block", "t") => Some(2),
+                            let pi = f.params.iter().position(|p| *p == n);
+                            let want: Option<u64> = match (f.name.as_str(), pi) {
+                                (fname, Some(0)) if recursive(fname) => n_arg(fname),
+                                (fname, Some(1)) if fname.starts_with("rec") => lit_arg(fname, 1).map(|t| t + outer_same),
+                                (fname, Some(i)) if !recursive(fname) && called_from_main && f.closure_of.is_none() => lit_arg(fname, i),
                                 _ => None,
                             };
                             if let Some(w) = want && w != x {
